@@ -27,6 +27,12 @@ def corpus(tier, seed, names, salt="pipe"):
         streams.append(("rep4", ["T " + " ".join(map(str, t)) for t in itertools.product(rep, repeat=4)]))
     else:
         streams.append(("rep4_sample", ["T " + " ".join(str(rng.choice(rep)) for _ in range(4)) for _ in range(60000)]))
+    # brackets and blocks: every sequence of length <= 5 (6 in the thorough tier) over the three bracket pairs,
+    # a value and the comma - the shapes in which empty or operand-less groups and blocks occur
+    br = [tts.index(x) for x in ("StartSideEffect", "EndSideEffect", "StartGroup", "EndGroup", "StartExpression", "EndExpression",
+                                 "Number", "Comma")]
+    streams.append(("brackets", ["T " + " ".join(map(str, t)) for L in ((4, 5, 6) if tier == "thorough" else (4, 5))
+                                 for t in itertools.product(br, repeat=L)]))
     k = 300000 if tier == "thorough" else 40000
     streams.append(("rep_soup_5_9", ["T " + " ".join(str(rng.choice(rep)) for _ in range(rng.randint(5, 9))) for _ in range(k)]))
     progs = [gen_programs.program(rng, 4) for _ in range(100000 if tier == "thorough" else 15000)]
